@@ -140,10 +140,22 @@ c_encalg(void)
         json_t *u = json_object_get(jwe, "unprotected");
         if (u) putjson(u); else fputs("-", stdout);
         json_decref(dp);
+        /* which algorithm was APPLIED: the IV it generated (12 octets for GCM, 16 for CBC-HMAC), and whether the
+         * product decrypts again under the header the object now carries */
+        printf("\tIV=");
+        putsz(jose_b64_dec(json_object_get(jwe, "iv"), NULL, 0));
+        bool ok = io->feed(io, "x", 1) && io->done(io);
+        if (ok && json_object_set_new(jwe, "ciphertext", jose_b64_enc(buf, len)) == 0) {
+            size_t ptl = 0;
+            void *pt = jose_jwe_dec_cek(NULL, jwe, cek, &ptl);
+            printf("\tRT=%s", (pt && ptl == 1 && *(char *) pt == 'x') ? "ok" : "FAIL");
+            free(pt);
+        } else {
+            printf("\tRT=noenc");
+        }
     }
     jose_io_decref(io);
     jose_io_decref(sink);
-    free(buf);
     json_decref(jwe);
     json_decref(cek);
 }
